@@ -241,7 +241,7 @@ func NewService(name string) *Service {
 
 // SetLogger sets the logger. Panics if service is already started.
 func (s *Service) SetLogger(l logger.Logger) *Service {
-	if s.nc != nil {
+	if s.conn() != nil {
 		panic(serviceAlreadyStarted)
 	}
 	s.logger = l
@@ -251,7 +251,7 @@ func (s *Service) SetLogger(l logger.Logger) *Service {
 // SetQueryEventDuration sets the duration for which the service will listen for
 // query requests sent on a query event. Default is 3 seconds
 func (s *Service) SetQueryEventDuration(d time.Duration) *Service {
-	if s.nc != nil {
+	if s.conn() != nil {
 		panic(serviceAlreadyStarted)
 	}
 	s.queryDuration = d
@@ -263,7 +263,7 @@ func (s *Service) SetQueryEventDuration(d time.Duration) *Service {
 //
 // If count is less or equal to zero, the default value is used.
 func (s *Service) SetWorkerCount(count int) *Service {
-	if s.nc != nil {
+	if s.conn() != nil {
 		panic(serviceAlreadyStarted)
 	}
 	if count <= 0 {
@@ -278,7 +278,7 @@ func (s *Service) SetWorkerCount(count int) *Service {
 //
 // If size is less or equal to zero, the default value is used.
 func (s *Service) SetInChannelSize(size int) *Service {
-	if s.nc != nil {
+	if s.conn() != nil {
 		panic(serviceAlreadyStarted)
 	}
 	if size <= 0 {
@@ -341,7 +341,17 @@ func (s *Service) ProtocolVersion() string {
 //
 //	nc := service.Conn().(*nats.Conn)
 func (s *Service) Conn() Conn {
-	return s.nc
+	return s.conn()
+}
+
+// conn returns the connection, or nil if the service is not serving. The
+// connection is cleared by Shutdown, which may be called while other
+// goroutines publish events.
+func (s *Service) conn() Conn {
+	s.mu.Lock()
+	nc := s.nc
+	s.mu.Unlock()
+	return nc
 }
 
 // infof logs a formatted info entry.
@@ -663,7 +673,9 @@ func (s *Service) serve(nc Conn) error {
 	// Initialize fields
 	inCh := make(chan *nats.Msg, s.inChannelSize)
 	workCh := make(chan *work, 1)
+	s.mu.Lock()
 	s.nc = nc
+	s.mu.Unlock()
 	s.inCh = inCh
 	s.workcond = sync.Cond{L: &s.mu}
 	s.workbuf = make([]*work, s.inChannelSize)
@@ -721,7 +733,9 @@ func (s *Service) Shutdown() error {
 	verifGate("shutdown.waited")
 
 	s.inCh = nil
+	s.mu.Lock()
 	s.nc = nil
+	s.mu.Unlock()
 
 	atomic.StoreInt32(&s.state, stateStopped)
 
@@ -1095,8 +1109,8 @@ func (s *Service) event(subj string, data interface{}) {
 
 	payload, err := json.Marshal(data)
 	if err == nil {
-		s.tracef("<-- %s: %s", subj, payload)
-		err = s.nc.Publish(subj, payload)
+		s.rawEvent(subj, payload)
+		return
 	}
 	if err != nil {
 		s.errorf("Error sending event %s: %s", subj, err)
@@ -1106,8 +1120,13 @@ func (s *Service) event(subj string, data interface{}) {
 // rawEvent publishes the payload on a subject, and logs it as an outgoing
 // event.
 func (s *Service) rawEvent(subj string, payload []byte) {
+	nc := s.conn()
+	if nc == nil {
+		s.errorf("Error sending event %s: %s", subj, errNotStarted)
+		return
+	}
 	s.tracef("<-- %s: %s", subj, payload)
-	err := s.nc.Publish(subj, payload)
+	err := nc.Publish(subj, payload)
 	if err != nil {
 		s.errorf("Error sending event %s: %s", subj, err)
 	}
